@@ -106,6 +106,14 @@ def full_backend(schema, b, flavour, flags, rng, shuffle=True):
     if "HasLocaltimeColumn" in flags:
         st["cols"] = st["cols"] + ["localtime"] if "localtime" not in st["cols"] else st["cols"]
         st["rows"][0]["localtime"] = 0
+    # an lmd in front of the core: hosts and services carry the time lmd cached them (never fetched, only filtered on)
+    if "HasLMDLastCacheUpdateColumn" in flags:
+        for tname in ("hosts", "services"):
+            t = tables[tname]
+            if "lmd_last_cache_update" not in t["cols"]:
+                t["cols"] = t["cols"] + ["lmd_last_cache_update"]
+                for r in t["rows"]:
+                    r["lmd_last_cache_update"] = 0
     # the columns table (lmd reads table + name)
     colrows = []
     for tname, t in tables.items():
